@@ -923,6 +923,8 @@ fn par_rt<P: zipora::entropy::parallel::ParallelVariant>(v: &str, cfg: &str, pre
         || {
             let mut e = ParallelHuffmanEncoder::<P>::new(par_cfg(cfg)).map_err(es)?;
             if pretrain {
+                // an encoder that was trained on another model before: train replaces the model
+                e.train(&[0, 1, 1, 2, 2, 2, 2, 7, 7, 7, 7, 7, 7, 7, 7]).map_err(es)?;
                 e.train(t).map_err(es)?;
             }
             Ok((e.encode(x).map_err(es)?, ()))
@@ -932,7 +934,22 @@ fn par_rt<P: zipora::entropy::parallel::ParallelVariant>(v: &str, cfg: &str, pre
             let model = if pretrain { t } else { x };
             let mut d = ParallelHuffmanDecoder::<P>::new(par_cfg(cfg));
             d.set_tree(HuffmanTree::from_data(model).map_err(|e| format!("tree: {e}"))?).map_err(es)?;
-            d.decode(y, x.len()).map_err(es)
+            let fresh = d.decode(y, x.len()).map_err(es);
+            // a decoder that was set up for (and used with) another model before: set_tree replaces the model
+            const OTHER: &[u8] = &[0, 1, 1, 2, 2, 2, 2, 7, 7, 7, 7, 7, 7, 7, 7];
+            let mut d2 = ParallelHuffmanDecoder::<P>::new(par_cfg(cfg));
+            d2.set_tree(HuffmanTree::from_data(OTHER).map_err(|e| format!("tree: {e}"))?).map_err(es)?;
+            let _ = d2.decode(y, x.len());
+            d2.set_tree(HuffmanTree::from_data(model).map_err(|e| format!("tree: {e}"))?).map_err(es)?;
+            let again = d2.decode(y, x.len()).map_err(es);
+            if again != fresh {
+                // judged like any other wrong decoder output
+                return match again {
+                    Ok(bytes) => Ok(bytes),
+                    Err(e) => Err(format!("decoder reused after another model (set_tree called twice): {e}")),
+                };
+            }
+            fresh
         },
     )
 }
